@@ -190,3 +190,6 @@ Qed.
 
 Lemma incl_skipn_aux {A} n (l : list A) : incl (skipn n l) l.
 Proof. revert l. induction n; intros [|x l] y Hy; cbn in *; try assumption. right. now apply IHn. Qed.
+
+Definition transpose {A} (dflt : A) (n : nat) (cols : list (list A)) : list (list A) :=
+  map (fun i => map (fun c => nth i c dflt) cols) (seq 0 n).
